@@ -24,6 +24,8 @@ pub enum TreeOp {
     Link { path: String, target: String, absolute: bool },
     /// a named pipe (nobody ever writes to it)
     Fifo(String),
+    /// a unix domain socket (bound and left behind)
+    Socket(String),
     /// a directory with one file on ANOTHER file system (the root disk; the workspace is tmpfs), and a
     /// symbolic link to it at `path`
     XdevDir { path: String, seed: u64 },
@@ -90,6 +92,13 @@ fn build_tree(root: &Path, ops: &[TreeOp]) {
                         libc::mkfifo(c.as_ptr(), 0o600);
                     }
                 }
+            }
+            TreeOp::Socket(p) => {
+                let f = root.join(p);
+                if let Some(d) = f.parent() {
+                    let _ = std::fs::create_dir_all(d);
+                }
+                let _ = std::os::unix::net::UnixListener::bind(&f);
             }
             TreeOp::Link { path, target, absolute } => {
                 let f = root.join(path);
@@ -655,6 +664,21 @@ pub fn gen_trace(seed: u64, tier: Tier) -> RecorderTrace {
             tree.push(TreeOp::Link { path: format!("{}/to-pipe", d), target: "pipe".into(), absolute: false });
         }
         labels.push("FIFO-IN-TREE".into());
+    }
+    // links to things that are no regular files: a device node (the `ln -s /dev/null name` idiom), a socket
+    if r.chance(1, 15) {
+        let d = r.pick(&dirs).clone();
+        if r.chance(1, 2) {
+            tree.push(TreeOp::Link { path: format!("{}/masked", d), target: "/dev/null".into(), absolute: false });
+            if r.chance(1, 2) {
+                tree.push(TreeOp::Link { path: format!("{}/masked2", d), target: "masked".into(), absolute: false });
+            }
+            labels.push("LINK-TO-DEVICE".into());
+        } else {
+            tree.push(TreeOp::Socket(format!("{}/sock", d)));
+            tree.push(TreeOp::Link { path: format!("{}/to-sock", d), target: "sock".into(), absolute: false });
+            labels.push("SOCKET-IN-TREE".into());
+        }
     }
     // path arguments
     let mut paths: Vec<String> = match r.weighted(&[30, 25, 15, 10, 10, 10, if links.is_empty() { 0 } else { 12 }]) {
